@@ -114,7 +114,9 @@ fn is_constant(expr: &Expr) -> bool {
         Expr::Object(ObjectLit { props, .. }) => props.iter().all(|prop| {
             if let PropOrSpread::Prop(prop) = prop {
                 match &**prop {
-                    Prop::KeyValue(KeyValueProp { value, .. }) => is_constant(value),
+                    Prop::KeyValue(KeyValueProp { key, value }) => {
+                        !key.is_computed() && is_constant(value)
+                    }
                     Prop::Shorthand(ident) => &ident.sym == "undefined",
                     _ => false,
                 }
